@@ -66,6 +66,8 @@ type respPlan struct {
 	DelayMs int  // before the status line
 	// Early: answer as soon as the request head is read, drain the request body afterwards
 	Early bool
+	// PaceMs > 0: body in pieces of at most 8 KiB with this pause after each
+	PaceMs int
 	// Hold: do not answer until the channel is closed (or 90 s)
 	Hold chan struct{}
 	// Tunnel: answer 101 (upgrade) / 200 (CONNECT) and then run the two streams
@@ -250,6 +252,9 @@ func (b *rawBackend) respond(c net.Conn, method, tag string, p *respPlan) bool {
 		if rng.Intn(5) == 0 {
 			k = int64(1 + rng.Intn(64))
 		}
+		if p.PaceMs > 0 && k > 8*1024 {
+			k = 8 * 1024
+		}
 		if k > left {
 			k = left
 		}
@@ -270,7 +275,9 @@ func (b *rawBackend) respond(c net.Conn, method, tag string, p *respPlan) bool {
 			return false
 		}
 		left -= k
-		if p.Slow && rng.Intn(3) == 0 {
+		if p.PaceMs > 0 {
+			time.Sleep(time.Duration(p.PaceMs) * time.Millisecond)
+		} else if p.Slow && rng.Intn(3) == 0 {
 			time.Sleep(time.Duration(1+rng.Intn(4)) * time.Millisecond)
 		}
 		_ = c.SetWriteDeadline(time.Now().Add(120 * time.Second))
